@@ -18,6 +18,8 @@ RULE = ("Seeded generation. Directions uniform on the sphere plus a polar "
         "start epoch != J2000, zero interval, non-zero proper motion, i < 1 "
         "or i > 90; distinct by inputs.")
 ASSUMPTIONS = [
+    "every other precession call re-uses long-lived Epoch and Angle objects "
+    "re-set in place with set(), the others use fresh objects",
     "mean obliquity for the route clause comes from the library's own "
     "mean_obliquity()",
     "proper-motion clause: the displacement of the result equals the "
@@ -89,14 +91,30 @@ def gen_epochs(rng, span):
     return jd_of_year(y0), jd_of_year(y1)
 
 
+_POOL = {"n": 0}
+
+
 def pe(start, final, lon, lat, pml=0.0, pmb=0.0, which="equ"):
     from pymeeus import Coordinates as C
     from pymeeus.Angle import Angle
     from pymeeus.Epoch import Epoch
     f = {"equ": C.precession_equatorial, "ecl": C.precession_ecliptical,
          "new": C.precession_newcomb}[which]
-    a, b = Angle(lon), Angle(lat)
-    r = f(Epoch(start), Epoch(final), a, b, pml, pmb)
+    # every other call re-uses long-lived Epoch / Angle objects that are
+    # re-set in place; results must not depend on the objects' history
+    _POOL["n"] += 1
+    if _POOL["n"] % 2:
+        if "s" not in _POOL:
+            _POOL["s"], _POOL["f"] = Epoch(2451545.0), Epoch(2451545.0)
+            _POOL["a"], _POOL["b"] = Angle(1.0), Angle(2.0)
+        es, ef, a, b = _POOL["s"], _POOL["f"], _POOL["a"], _POOL["b"]
+        es.set(start)
+        ef.set(final)
+        a.set(lon)
+        b.set(lat)
+    else:
+        es, ef, a, b = Epoch(start), Epoch(final), Angle(lon), Angle(lat)
+    r = f(es, ef, a, b, pml, pmb)
     return r[0](), r[1]()
 
 
